@@ -24,3 +24,6 @@ def run(check: Check, repo: Repo, tier: str) -> None:
     T.id_lifecycle(check, repo)
     T.termination(check, repo)
     T.root_set_pairing(check, repo)
+    T.announce_cover(check, repo)
+    T.stale_loop_var(check, repo, repo.package_modules('execution.incremental'))
+    check.floor('STALE-LOOP-VAR', 10, 'loops with loop-local names')
